@@ -3,7 +3,7 @@
 
     <call> <src> <dst> <names> <inodes>
 
-  call   = copy | move | copypinned
+  call   = copy | move | copypinned | movepinned
   src/dst= name ids
   names  = comma separated `id:kind:dev`, kind = f<ino> (regular file, hard link to inode) |
            d (directory) | l<id> (symlink to name id) | m (missing, parent directory exists) |
@@ -92,6 +92,9 @@ def step (u : Unit) : List String → Unit × String
           some (r.1, match r.2 with | .ok _ => "ok" | .error e => errName e)
         else if call = "move" then
           let r := moveFile fs src dst
+          some (r.1, match r.2 with | .ok _ => "ok" | .error e => errName e)
+        else if call = "movepinned" then
+          let r := moveFilePinned fs src dst
           some (r.1, match r.2 with | .ok _ => "ok" | .error e => errName e)
         else none
       match res with
